@@ -14,5 +14,6 @@ MODULES = {
     "C12": "harness.c12_events",
     "C13": "harness.c13_deviceseq",
     "C14": "harness.c14_colour",
+    "C18": "harness.c18_wire",
     "C19": "harness.c19_deframe",
 }
